@@ -1,5 +1,5 @@
 """C18 \u2014 Sentry events are valid Store-API payloads that carry the message faithfully."""
-import datetime, json, os, re
+import datetime, json, os, random, re
 import vlib
 from checks import json_util as J
 
@@ -351,10 +351,11 @@ def event_id_of(out_units):
     return m.group(1) if m else None
 
 
-def run_impl(impl, cases, tz):
-    """one harness process for the whole list (same SentryFormatter objects throughout); per case the records it printed"""
+def run_impl(impl, cases, tz, sdk=None):
+    """one harness process for the whole list (same SentryFormatter objects throughout); per case the records it printed;
+    sdk = (name units, version units): the constructor arguments of the own objects A and B (None = default arguments)"""
     lines = [line_of(c) for c in cases]
-    rc, out_i, err = vlib.run_lines(impl, lines, [codec_of(tz)], env=env_of(tz))
+    rc, out_i, err = vlib.run_lines(impl, lines, [codec_of(tz)] + ([J.hx(sdk[0]), J.hx(sdk[1])] if sdk else []), env=env_of(tz))
     if rc != 0 or len(out_i) != len(lines):
         return None, 'implementation crashed or stopped: rc=%s stderr=%s' % (rc, err[-400:])
     res = []
@@ -385,8 +386,8 @@ def model_line(c, r, rec):
     return ' '.join(toks)
 
 
-def run_cases(impl, model, cases, tz):
-    res, err = run_impl(impl, cases, tz)
+def run_cases(impl, model, cases, tz, sdk=None):
+    res, err = run_impl(impl, cases, tz, sdk)
     if res is None:
         return None, err
     mlines = [model_line(c, r, rec) for c, r in zip(cases, res) for rec in r['recs']]
@@ -429,6 +430,35 @@ def judge(c, r, obs):
         if rec['verdict'] != '1':
             return 'oracle', 'extracted oracle prop_c18_b rejects the implementation output (the Python oracle accepted it)' + where
     return finding
+
+
+# constructor arguments (sdkName, sdkVersion) of the own formatter objects: legal strings that need JSON escaping or are not ASCII
+SDKS = [('qtlogger', '2.1 "nightly"'), ('C:\\tools\\logger', '3'), ('my\tsdk \u00e9\u65e5', '1.0\n'), ('', ''), ('100%1 %2 %L1', '%1'),
+        ('\U0001F600/\u2028', '\x01\x7f</script>'), ('sentry.native.qt', '10.4.0-beta+build.7')]
+
+
+def judge_sdk(c, r, sdk):
+    """the sdk-argument leg: every record is a valid event by the Python oracle, its sdk object holds exactly the constructor
+    arguments of the object that formatted it (instance(): the defaults = what the model says), and - the sdk object aside - the
+    parsed event is the parsed model event.  ('correspondence', ...) = model and implementation differ, anything else falsifies C18"""
+    for n, rec in enumerate(r['recs']):
+        where = ' [record %d of %d, formatted by %s constructed with sdkName=%r sdkVersion=%r]' % (
+            n + 1, len(r['recs']), SELS[rec['sel']], *(('<default>', '<default>') if rec['sel'] == 2 else (J.pystr(sdk[0]), J.pystr(sdk[1]))))
+        po = python_oracle(dict(c, attrs=rec['attrs']), J.unhx(rec['impl']), {})
+        if po and po[0] != 'routed_nonscalar_value':
+            return po[0], po[1] + where
+        ev = J.loads_strict(J.pystr(J.unhx(rec['impl'])))
+        try:
+            mev = J.loads_strict(J.pystr(J.unhx(rec['model'])))
+        except ValueError:
+            return 'correspondence', 'the model event does not parse' + where
+        want = mev.get('sdk') if rec['sel'] == 2 else {'name': J.pystr(sdk[0]), 'version': J.pystr(sdk[1])}
+        if not J.same(ev.get('sdk'), want):
+            return 'sdk', 'sdk is %s, expected %s' % (_r(ev.get('sdk'), 300), _r(want, 300)) + where
+        ev2 = dict(ev); ev2['sdk'] = mev.get('sdk')
+        if not J.same(ev2, mev):
+            return 'correspondence', 'apart from the sdk object the event differs from the model event' + where
+    return None
 
 
 def shrink_steps(steps, ok):
@@ -745,6 +775,45 @@ def run():
         ids_oracle[tz] = o[0] if rc == 0 and o else '?'
         if ids_oracle[tz] != '1' and len(set(ids)) == len(ids) and all(re.fullmatch(r'[0-9a-f]{32}', x) for x in sub):
             chk.broke('extracted oracle ids_ok_b rejects the ids of sub-run %s although they are well-formed and distinct' % tz, {'kind': 'oracle', 'ids': sub[:50]})
+    # sdk-argument leg: own formatter objects constructed with (sdkName, sdkVersion) that need escaping; the model carries the
+    # default strings (SrcSentry.src_sentry_cfg), so here the sdk object is judged on the implementation side (= the arguments) and the
+    # rest of the event against the model
+    sdk_leg = {'argument_pairs': [list(x) for x in SDKS], 'records': 0, 'falsified': 0, 'model_differs': 0}
+    wf_idx = [i for i, c in enumerate(cases) if c['stream'] == 'wf' and len(c['msg']) < 300]
+    sample = [cases[i] for i in wf_idx[:ncorpus + nfixed] + wf_idx[ncorpus + nfixed + len(LONG):][:(400 if thorough else 60)]]
+    trivial = dict(gen_case(random.Random(0), {}, 'wf'), msg=[], attrs=[], fmt=None, ms=0, type=0, line=1, steps=[], cat=J.units('c'), file=J.units('f'), fn=J.units('g'))
+    sdk_reported = set()
+    for k, (sn, sv) in enumerate(SDKS):
+        sdk = (J.units(sn), J.units(sv)); tz = TZS[k % len(TZS)]
+        scs = [trivial] + sample
+        rr, err = run_cases(impl, model, scs, tz, sdk)
+        if rr is None:
+            chk.broke('sdk-argument run failed: ' + err, {'kind': 'infrastructure', 'error': err, 'sdkName': sn, 'sdkVersion': sv})
+            continue
+
+        def sdk_kind(t, tz=tz, sdk=sdk):
+            x, e = run_cases(impl, model, [t], tz, sdk)
+            j = judge_sdk(t, x[0], sdk) if x else None
+            return j[0] if j else None
+        for c, r in zip(scs, rr):
+            sdk_leg['records'] += len(r['recs'])
+            j = judge_sdk(c, r, sdk)
+            if not j:
+                continue
+            sdk_leg['model_differs' if j[0] == 'correspondence' else 'falsified'] += 1
+            if j[0] in sdk_reported:
+                continue
+            sdk_reported.add(j[0])
+            small = trivial if sdk_kind(trivial) == j[0] else shrink_case(c, lambda t: sdk_kind(t) == j[0])
+            x, _ = run_cases(impl, model, [small], tz, sdk)
+            j2 = judge_sdk(small, x[0], sdk) if x else None
+            d = describe(small, x[0] if x else None, tz)
+            d.update({'kind': j[0], 'detail': (j2 or j)[1], 'sdkName': sn, 'sdkVersion': sv, 'sdk_units': [sdk[0], sdk[1]],
+                      'constructor': 'SentryFormatter(%s, %s)' % (json.dumps(sn), json.dumps(sv))})
+            if j[0] == 'correspondence':
+                chk.broke('correspondence (sdk-argument leg): ' + d['detail'], d)
+            else:
+                chk.fail('SentryFormatter output falsifies C18 (%s): %s' % (j[0], d['detail']), d, kind=j[0])
     if diffs:
         i = min(diffs, key=lambda k: len(line_of(cases[k])))
         d = describe(cases[i], res[i], tz_of[i])
@@ -793,6 +862,7 @@ def run():
         'path_like_strings': {f: sum(1 for c in cases if c[f] and J.path_shapes(J.pystr(c[f]))) for f in ('cat', 'file', 'fn')},
         'numeric_type_histogram': {J.NUM_TYPES[t][0]: hist.get('num_' + J.NUM_TYPES[t][0], 0) for t in J.NUM_TOKENS},
         'numeric_values_under_routed_names': sum(1 for c in cases for k, v in c['attrs'] if J.pystr(k) in ROUTES and v[0] in J.NUM_TOKENS),
+        'sdk_constructor_argument_leg': sdk_leg,
         'observations': obs, 'generator_histogram': dict(sorted(hist.items())),
     })
     for i in (0, len(cases) // 3, len(cases) - 1):
@@ -825,10 +895,13 @@ def replay(path):
         print(json.dumps(r, indent=1)); return 0
     tz = r.get('TZ', 'UTC0|C')
     seq = ([r['earlier_event_on_the_same_formatter']['case']] if r.get('earlier_event_on_the_same_formatter') else []) + [c]
-    res, err = run_cases(impl, model, seq, tz)
+    sdk = (r['sdk_units'][0], r['sdk_units'][1]) if r.get('sdk_units') else None
+    res, err = run_cases(impl, model, seq, tz, sdk)
     if res is None:
         print(err); return 1
     print('environment    ', env_of(tz), 'locale codec', codec_of(tz))
+    if sdk:
+        print('own formatter objects constructed as', r.get('constructor'))
     for t, x in zip(seq, res):
         print('input          ', line_of(t)[:400])
         for line in steps_text(t.get('steps') or []):
@@ -837,5 +910,5 @@ def replay(path):
             print('record %d implementation ' % (n + 1), _r(J.pystr(J.unhx(rec['impl'])), 3000))
             print('record %d model          ' % (n + 1), _r(J.pystr(J.unhx(rec['model'])), 3000))
             print('record %d oracle verdict on the implementation output (1 = holds):' % (n + 1), rec['verdict'])
-    print('judgement of the last event:', judge(seq[-1], res[-1], {}))
+    print('judgement of the last event:', judge_sdk(seq[-1], res[-1], sdk) if sdk else judge(seq[-1], res[-1], {}))
     return 0
